@@ -1,5 +1,11 @@
 (* C11 -- kitty graphics output transmits exactly the image; draw and erase stay paired.
-   Statements only; each is closed by a lemma proved in Image/Kitty{Parse,Proofs,History}.v.
+   Statements only; each is closed by a lemma proved in Image/Kitty{Parse,Proofs,History,Check,Pigeon}.v.
+   Counted: the 14 Theorems.  Audited, not counted: the 7 Lemmas (C11_term_step,
+   C11_once_between_errors_by_content, C11_pairing_corner_refuted, C11_pid_pigeonhole,
+   C11_same_content_same_id, C11_before_fix_refuted, C11_id_collision_resolved) and the
+   non-vacuity Examples at the end.  Open known finding: pid-corner (the last two positions
+   share the largest placement id).  Fixed in the crate: placement id 0 (82493c7+adbe35d), image
+   id 0 (ce05ea8), empty image placed (10e9b17), two contents sharing an id (c7a01ef).
 
    Reading guide.  `draw`, `erase`, `handle`, `step`, `run` (Image/Kitty.v) are the model of
    KittyImageHandler; the bytes they produce are tied to the implementation by the
@@ -94,7 +100,7 @@ Qed.
 
 (* the same with the hash argument of every call being the content hash of its image (Image/Fnv.v),
    so that "id" above is a function of the content: equal contents share it (C11_same_content_same_id),
-   different contents differ in it outside the class id-collision.  NOT claimed: "at most once per
+   different contents get different ids (C11_ids_distinct) unless their full 64-bit hashes collide.  NOT claimed: "at most once per
    handler lifetime" -- after an error response naming the id the pixels are sent again, by design. *)
 Lemma C11_once_between_errors_by_content : forall (quiet : bool) (uops : list (uop * bool)),
   Forall (fun ul => uop_wf (fst ul)) uops ->
